@@ -1,4 +1,5 @@
 import NunavutVerif.Lemmas.Overwrite
+import NunavutVerif.Lemmas.OverwriteCli
 /-!
 # C12 — regeneration over existing output is safe for every history of runs
 
@@ -238,6 +239,202 @@ theorem C12_history_no_overwrite (env : Env) (hist : List Run) (fs₀ : FS) :
     C12_no_overwrite_never_touches_existing env s.2.1 s.1 hno,
     C12_no_overwrite_conflict_fails env s.2.1 s.1 hno,
     fun nd ht => C12_no_overwrite_fails_iff_conflict env s.2.1 s.1 hno nd ht⟩
+
+/-! ## From the command line to the run
+
+`Model/CliParse.lean` (argument parser + runner glue, tables regenerated from the real `argparse` object and from
+cli/runners.py) and `Model/OverwriteCli.lean`: what `--no-overwrite`, `--dry-run`, `--file-mode` and the post-processor
+options become on their way to the two generators.  Quantifier: every argument vector the parser accepts. -/
+
+section cli
+open NunavutVerif.CliParse NunavutVerif.Gen.CliArgs NunavutVerif.OverwriteCli
+
+/-- The same gate for support files as for type files: for every accepted command line, the `generate_all` calls of
+`ArgparseRunner._generate` — the support generator first (iff `_should_generate_support()`), then the type generator (iff
+`--generate-support` is not `only`) — receive identical keyword values: `allow_overwrite` is `False` exactly when
+`--no-overwrite` was given, `is_dryrun` is `True` exactly when `--dry-run` was given. -/
+theorem C12_cli_same_gate_for_support_and_types (argv : List String) (ns : Namespace) (a : Cli.Args) (cs : List Call)
+    (hp : parseArgv argv = .ok ns) (hc : callsOf calls "_generate" a ns = some cs) :
+    ∃ steps, stepsOf actions argv = some steps ∧
+      cs.map (·.target) = (if Cli.shouldGenerateSupport a then ["_support_generator"] else []) ++
+                           (if a.genSupport != .only then ["_generator"] else []) ∧
+      ∀ c ∈ cs, c.fn = "generate_all" ∧
+        c.kwargs = generateKw (steps.any (Step.takes "dry_run")) (steps.any (Step.takes "no_overwrite"))
+          (steps.any (Step.takes "omit_serialization_support")) (steps.any (Step.takes "embed_auditing_info")) ∧
+        boolKw c "allow_overwrite" = some (!steps.any (Step.takes "no_overwrite")) ∧
+        boolKw c "is_dryrun" = some (steps.any (Step.takes "dry_run")) := by
+  obtain ⟨steps, hs, _⟩ := parse_ok tableOk_actions hp
+  refine ⟨steps, hs, ?_⟩
+  have h := generate_calls hp hs a hc
+  subst h
+  by_cases h1 : Cli.shouldGenerateSupport a = true <;> by_cases h2 : (a.genSupport != .only) = true <;>
+    simp [h1, h2, boolKw, Call.kw, generateKw, List.lookup]
+
+/-- `SetFileMode(--file-mode)` is the last file post-processor of every accepted command line, whatever `--pp-…` options
+come with it; everything before it is an external program.  With an integer that fits a C `int`, the hypothesis
+`requestedMode … = some fm` of the theorems above holds with `fm = file_mode & 07777`. -/
+theorem C12_cli_set_file_mode_last (argv : List String) (ns : Namespace) (pps : List PP)
+    (prog : List Scalar → Content → Option (Content × Option Nat))
+    (hp : parseArgv argv = .ok ns) (hb : buildPPs ns ppRules = some pps) :
+    ∃ pre v, toFilePPs prog pps = pre ++ [setFileModePP v] ∧ ns.lookup "file_mode" = some v ∧
+      (∀ f ∈ pre, ∃ g, f = .edit g) ∧
+      ((∃ i, v = .sc (.int i)) ∨ (∃ l, v = .list l)) ∧
+      (∀ i : Int, v = .sc (.int i) → -2147483648 ≤ i → i < 2147483648 →
+        requestedMode (toFilePPs prog pps) = some (i % 4096).toNat ∧ hasSetMode (toFilePPs prog pps) = true) := by
+  obtain ⟨pre, v, rfl, hv, hpre⟩ := buildPPs_shape hb
+  have hsplit : toFilePPs prog (pre ++ [.setFileMode v]) = toFilePPs prog pre ++ [setFileModePP v] := by
+    rw [toFilePPs_append]; rfl
+  refine ⟨toFilePPs prog pre, v, hsplit, hv, toFilePPs_no_setMode prog pre hpre, ?_, ?_⟩
+  · obtain ⟨_, _, _, htyped, _⟩ := parse_ok tableOk_actions hp
+    have hsp : ∃ sp ∈ actions, sp.dest = "file_mode" ∧ sp.kind = .store ∧ sp.type = .intAuto ∧ sp.dflt = .sc (.int 292) := by decide
+    obtain ⟨sp, hsp, hd, hk, hty, hdf⟩ := hsp
+    obtain ⟨v', hv', hok⟩ := htyped sp hsp (by rw [hd]; decide)
+    rw [hd, hv] at hv'
+    simp only [Option.some.injEq] at hv'
+    subst hv'
+    cases v with
+    | none => simp [valOk, valOkK, hk, hdf] at hok
+    | bool b => simp [valOk, valOkK, hk, hdf] at hok
+    | sc x =>
+      cases x with
+      | int i => exact .inl ⟨i, rfl⟩
+      | str t => simp [valOk, valOkK, hk, hdf, scalarOk, hty] at hok
+    | list l => exact .inr ⟨l, rfl⟩
+  · intro i hi h1 h2
+    subst hi
+    rw [hsplit]
+    have : setFileModePP (.sc (.int i)) = .setMode (i % 4096).toNat := by simp [setFileModePP, h1, h2]
+    rw [this]
+    exact ⟨requestedMode_append_setMode _ _, hasSetMode_append_setMode _ _⟩
+
+/-- Both generators are constructed with the same post-processor list object; `_handle_post_processors` of either one only
+ever appends line post-processors: the file post-processors are the same for both, and running it a second time (the second
+generator, on the list the first one left) changes nothing. -/
+theorem C12_cli_augment_keeps_file_pps (limit : Option Val) (trimWs : Bool) (pps : List PP)
+    (prog : List Scalar → Content → Option (Content × Option Nat)) :
+    toFilePPs prog (augment limit trimWs pps) = toFilePPs prog pps ∧
+    augment limit trimWs (augment limit trimWs pps) = augment limit trimWs pps := by
+  constructor
+  · unfold augment
+    cases limit <;> cases trimWs <;> simp only [] <;> repeat' split
+    all_goals simp [toFilePPs, List.filterMap_append, toFilePP]
+  · unfold augment
+    cases limit <;> cases trimWs <;> simp only [] <;> repeat' split
+    all_goals simp_all
+
+/-- A generating invocation is one `Run` of the overwrite model: for every accepted command line, what the (up to two)
+`generate_all` calls do in sequence — each with its own `allow_overwrite` and `is_dryrun` — equals `runRun` of a single run
+whose gate is "no `--no-overwrite` on the command line", whose file post-processors are those of the shared list, and whose
+files are the support files followed by the type files (none when `--dry-run` was given). -/
+theorem C12_cli_invocation_is_one_run (env : Env) (argv : List String) (ns : Namespace) (a : Cli.Args)
+    (prog : List Scalar → Content → Option (Content × Option Nat)) (files : String → List Write) (parts : List Part)
+    (fs : FS) (hp : parseArgv argv = .ok ns) (hparts : cliParts prog files a ns = some parts) :
+    ∃ steps pps, stepsOf actions argv = some steps ∧ buildPPs ns ppRules = some pps ∧
+      runParts env parts fs =
+        runRun env ⟨!steps.any (Step.takes "no_overwrite"), toFilePPs prog pps, parts.flatMap (·.writes)⟩ fs ∧
+      parts.flatMap (·.writes) =
+        if steps.any (Step.takes "dry_run") then []
+        else (if Cli.shouldGenerateSupport a then files "_support_generator" else []) ++
+             (if a.genSupport != .only then files "_generator" else []) := by
+  unfold cliParts at hparts
+  split at hparts
+  · rename_i cs pps hcs hpps
+    obtain ⟨steps, hs, _⟩ := parse_ok tableOk_actions hp
+    have hc := generate_calls hp hs a hcs
+    refine ⟨steps, pps, hs, hpps, ?_, ?_⟩
+    · apply runParts_uniform
+      intro p hpm
+      subst hc
+      generalize steps.any (Step.takes "dry_run") = dry at *
+      generalize steps.any (Step.takes "no_overwrite") = now at *
+      by_cases h1 : Cli.shouldGenerateSupport a = true <;> by_cases h2 : (a.genSupport != .only) = true <;>
+        simp [h1, h2, partsOfCalls, partOfCall, boolKw, Call.kw, generateKw, List.lookup] at hparts <;>
+        subst hparts <;> simp at hpm
+      all_goals first
+        | (rcases hpm with rfl | rfl <;> exact ⟨rfl, rfl⟩)
+        | (subst hpm; exact ⟨rfl, rfl⟩)
+    · subst hc
+      generalize steps.any (Step.takes "dry_run") = dry at *
+      generalize steps.any (Step.takes "no_overwrite") = now at *
+      by_cases h1 : Cli.shouldGenerateSupport a = true <;> by_cases h2 : (a.genSupport != .only) = true <;>
+        simp [h1, h2, partsOfCalls, partOfCall, boolKw, Call.kw, generateKw, List.lookup] at hparts <;>
+        subst hparts <;> cases dry <;> simp [h1, h2]
+  · cases hparts
+
+/-- Statement 2 from the command line: `--no-overwrite` (in any spelling the parser resolves to it) ⇒ every path that
+existed before the invocation keeps content and mode, whether the invocation fails or not, whatever the other options. -/
+theorem C12_cli_no_overwrite_preserves_existing (env : Env) (argv : List String) (ns : Namespace) (a : Cli.Args)
+    (prog : List Scalar → Content → Option (Content × Option Nat)) (files : String → List Write) (parts : List Part)
+    (fs : FS) (hp : parseArgv argv = .ok ns) (hparts : cliParts prog files a ns = some parts)
+    (steps : List Step) (hs : stepsOf actions argv = some steps) (hno : steps.any (Step.takes "no_overwrite") = true) :
+    (∀ p f, fs p = some f → (runParts env parts fs).fs p = some f) ∧
+    (∀ op ∈ (runParts env parts fs).ops, fs op.path = none) := by
+  obtain ⟨steps', pps, hs', _, hrun, _⟩ := C12_cli_invocation_is_one_run env argv ns a prog files parts fs hp hparts
+  rw [hs] at hs'; simp only [Option.some.injEq] at hs'; subst hs'
+  rw [hrun]
+  exact ⟨C12_no_overwrite_preserves_existing env _ fs (by simp [hno]),
+    C12_no_overwrite_never_touches_existing env _ fs (by simp [hno])⟩
+
+/-- Statement 1 from the command line: no `--no-overwrite`, `--file-mode` an integer that fits a C `int` (the default
+`0o444` does) ⇒ after a successful invocation over any file system every generated file has the mode `file_mode & 07777`
+and the content and mode the same invocation leaves in an empty directory; no `open` was denied. -/
+theorem C12_cli_overwrite_matches_fresh (env : Env) (argv : List String) (ns : Namespace) (a : Cli.Args)
+    (prog : List Scalar → Content → Option (Content × Option Nat)) (files : String → List Write) (parts : List Part)
+    (fs : FS) (hp : parseArgv argv = .ok ns) (hparts : cliParts prog files a ns = some parts)
+    (steps : List Step) (hs : stepsOf actions argv = some steps) (hno : steps.any (Step.takes "no_overwrite") = false)
+    (i : Int) (hfm : ns.lookup "file_mode" = some (.sc (.int i))) (h1 : -2147483648 ≤ i) (h2 : i < 2147483648)
+    (hok : (runParts env parts fs).err = none) :
+    (runParts env parts FS.empty).err = none ∧
+    (∀ p ∈ parts.flatMap (fun x => x.writes.map Write.path), ∃ f g, (runParts env parts fs).fs p = some f ∧
+      (runParts env parts FS.empty).fs p = some g ∧ f.content = g.content ∧ f.mode = g.mode ∧
+      f.mode = (i % 4096).toNat % 4096) ∧
+    (∀ op ∈ (runParts env parts fs).ops, op.isDenied = false) := by
+  obtain ⟨steps', pps, hs', hpps, hrun, _⟩ := C12_cli_invocation_is_one_run env argv ns a prog files parts fs hp hparts
+  obtain ⟨steps0, pps0, hs0, hpps0, hrun0, _⟩ := C12_cli_invocation_is_one_run env argv ns a prog files parts FS.empty hp hparts
+  rw [hs] at hs' hs0; simp only [Option.some.injEq] at hs' hs0; subst hs' hs0
+  rw [hpps] at hpps0; simp only [Option.some.injEq] at hpps0; subst hpps0
+  obtain ⟨pre, v, hsplit, hv, _, _, hreq⟩ := C12_cli_set_file_mode_last argv ns pps prog hp hpps
+  rw [hfm] at hv; simp only [Option.some.injEq] at hv; subst hv
+  obtain ⟨hrm, hsm⟩ := hreq i rfl h1 h2
+  rw [hrun] at hok ⊢
+  rw [hrun0]
+  have hallow : (Run.mk (!steps.any (Step.takes "no_overwrite")) (toFilePPs prog pps) (parts.flatMap (·.writes))).allowOverwrite = true := by
+    simp [hno]
+  obtain ⟨hf1, hf2⟩ := C12_overwrite_matches_fresh env _ fs hallow hok
+  refine ⟨hf1, ?_, (C12_overwrite_open_never_denied env _ fs hallow).2.2⟩
+  intro p hp
+  have hp' : p ∈ (Run.mk (!steps.any (Step.takes "no_overwrite")) (toFilePPs prog pps) (parts.flatMap (·.writes))).paths := by
+    simpa [Run.paths, List.map_flatMap] using hp
+  obtain ⟨f, g, hf, hg, hc, hm⟩ := hf2 p hp'
+  obtain ⟨f', hf', hmode⟩ := C12_overwrite_requested_mode env _ fs _ hallow hok hrm p hp'
+  rw [hf] at hf'; simp only [Option.some.injEq] at hf'; subst hf'
+  exact ⟨f, g, hf, hg, hc, hm hsm, by simpa [permBits] using hmode⟩
+
+/-! Non-vacuity of the command-line theorems (kernel-evaluated on the generated tables). -/
+
+def nsOf : CliParse.Outcome → Namespace
+  | .ok ns => ns
+  | _ => []
+
+/-- `--no-overwrite` (abbreviated), a post-processor program with an argument, a limit, `--file-mode 0o640`: the list both
+generators receive, and its file post-processors — `SetFileMode` last. -/
+example :
+    buildPPs (nsOf (parseArgv ["--no-o", "-pp-rp", "fmt", "-pp-rpa=-i", "--pp-max-emptylines", "2", "--file-mode", "0o640"])) ppRules =
+      some [.limitEmptyLines (.sc (.int 2)), .extProgram [.str "fmt", .str "-i"], .setFileMode (.sc (.int 416))] ∧
+    requestedMode (toFilePPs (fun _ c => some (c, none))
+      [.limitEmptyLines (.sc (.int 2)), .extProgram [.str "fmt", .str "-i"], .setFileMode (.sc (.int 416))]) = some 416 ∧
+    buildPPs (nsOf (parseArgv [])) ppRules = some [.setFileMode (.sc (.int 292))] := by decide
+
+/-- `--file-mode` values `os.chmod` takes or refuses: `-1` is `07777`, `2**31` raises, `--file-mode=--` leaves a list
+(`TypeError`). -/
+example :
+    requestedMode [setFileModePP (.sc (.int (-1)))] = some 4095 ∧
+    requestedMode [setFileModePP (.sc (.int 2147483648))] = none ∧
+    (nsOf (parseArgv ["--file-mode=--"])).lookup "file_mode" = some (.list []) ∧
+    requestedMode [setFileModePP (.list [])] = none := by
+  decide
+
+end cli
 
 /-! ## Non-vacuity and regression examples -/
 
